@@ -23,6 +23,8 @@ pub enum Term {
     TokLit(i128),
     /// min_utxo(output name)
     MinUtxo(usize),
+    /// the value of another input block (a query that depends on what another block receives)
+    OtherInput(usize),
 }
 
 #[derive(Clone, Debug)]
@@ -101,6 +103,7 @@ impl Scenario {
             Term::TokParam(i) => format!("Tkn({})", self.params[*i].0),
             Term::TokLit(n) => format!("Tkn({})", n),
             Term::MinUtxo(o) => format!("min_utxo({})", self.outs[*o].name.clone().unwrap_or_else(|| "unnamed".into())),
+            Term::OtherInput(i) => self.ins[*i].name.clone(),
         }
     }
 
